@@ -213,3 +213,34 @@ def run(rec, F):
             pf, pb, why = problems[0]
             cfn, ct = sites[0]
             rec.finding(R, "F9.empty/%s" % nm, "%s unwraps %s.%s() but the parser can build that node with an empty vector (%s: %s): a text the parser accepts makes the front end panic instead of reporting a diagnostic" % (re.sub(r".*::(\\w+)<.* as .*>::(\\w+)$", r"\\1::\\2", cfn.path), nm, lastseg(ct["f"]), pf.name, why), loc=loc_of(ct["sp"]), fn=cfn.path)
+
+
+def run_line_narrowing(rec, F):
+    """line numbers come from the input's length; the line table stores u16"""
+    R = rec.rule("F9.line-narrow", "a line number computed from the source text (LineOffsets::offset_line) is unbounded, the chunk's line table stores u16: it is narrowed with a checked/saturating conversion, never with a bare `as u16` (silently wrong lines) followed by unchecked arithmetic (a panic on line 65536 in builds with overflow checks)")
+    n = 0
+    for fn in F.all_fns():
+        if fn.crate != "laythe_vm" or "::test" in fn.path:
+            continue
+        for bi, si, s in fn.stmts():
+            r = s["r"]
+            if r["k"] != "cast" or r.get("ck") != "IntToInt" or r.get("ty") not in ("u8", "u16", "i16", "i8"):
+                continue
+            d = str(sem.desc_operand(fn, r["a"]))
+            if "'offset_line'" not in d:
+                continue
+            n += 1
+            # tolerated: the operand was clamped first (min / try_from are calls, so the cast operand would not be the raw line)
+            ok = "'min'" in d or "'clamp'" in d
+            rec.inst(R, "%s: line narrowed to %s" % (fn.name, r["ty"]), ok=ok, loc=loc_of(s["sp"]))
+            if not ok:
+                rec.finding(R, "F9.line-narrow/%s" % fn.name, "%s narrows the line number of the instruction being emitted with a bare `as %s`: in a file with more than 65535 lines the next `+ 1` overflows (panic in debug builds) or the traceback shows a wrong line" % (fn.path, r["ty"]), loc=loc_of(s["sp"]), fn=fn.path)
+    conv = 0
+    for fn in F.all_fns():
+        if fn.crate != "laythe_vm" or "::test" in fn.path:
+            continue
+        for bi, t in fn.calls():
+            if lastseg(t["f"]) in ("try_from", "try_into") and "u16" in (t["f"] + t.get("g", "")) and "'offset_line'" in str(sem.desc_operand(fn, t["args"][0])):
+                conv += 1
+                rec.inst(R, "%s: line converted with %s" % (fn.name, lastseg(t["f"])), ok=True, loc=loc_of(t["sp"]))
+    rec.floor(R, "sites where a source line enters the line table", n + conv, 1)
